@@ -1,4 +1,4 @@
-\* scripted scenarios 1-14 (capacity 2)
+\* scripted scenarios 1-14, 22, 23 (capacity 2)
 SPECIFICATION MCScriptSpec
 CONSTANTS
   Atoms <- AtomsFull
